@@ -2,7 +2,7 @@
 """evalmut_nodemo.py <dir> <name> <checks...>: applies <dir>/patch.diff in a scratch worktree of /repo HEAD and runs the checks
 (the mutation was confirmed earlier with tools/evalmut.py; this only fills the detection matrix)."""
 import json, os, shutil, subprocess, sys, tempfile
-ENV = dict(os.environ, GOFLAGS="-mod=mod", GOPROXY="off", GOSUMDB="off", GOTOOLCHAIN="local")
+ENV = dict(os.environ, GOFLAGS="-mod=mod", GOPROXY="off", GOSUMDB="off", GOTOOLCHAIN="local", VERIF_SKIP_COQ="1")
 def sh(cmd, cwd=None, timeout=3000):
     p = subprocess.run(cmd, cwd=cwd, shell=True, env=ENV, stdout=subprocess.PIPE, stderr=subprocess.STDOUT, text=True, timeout=timeout)
     return p.returncode, p.stdout
